@@ -40,7 +40,7 @@ ASSUMPTIONS = [
     "issubclass defines the order on plain classes, ABCs and protocols",
     "different-origin generic pairs are evidence only (the statement fixes the same-origin case)",
 ]
-REPORT_COUNTERS = ["hierarchies", "pairs_L1", "reflexive_L2", "reflexive_respelled_L2", "dependent_admits_own_bound_L2", "class_pairs_L3", "class_triples_L3", "generic_L4",
+REPORT_COUNTERS = ["hierarchies", "pairs_L1", "reflexive_L2", "reflexive_respelled_L2", "dependent_admits_own_bound_L2", "dependent_admits_declared_bound_L2", "class_pairs_L3", "class_triples_L3", "generic_L4",
                    "member_L5", "late_registration_L3", "pairs_seen_in_dispatch", "online_mirror_checked", "exceptions"]
 
 
@@ -97,6 +97,8 @@ def gen_case(rng, params, idx):
     ua, ub = rng.sample(names, 2)
     lvl1 += [["U", ua, ub], ["D", ["U", ua, ub], "truthy"], ["D", ["U", ub, ua], "truthy"]]
     lvl1 += [["D", "int", "pos"], ["D", rng.choice(names), "truthy"], ["D", "object", "truthy"], ["D", "MyInt", "even"]]
+    # one named condition given two unrelated bounds, one after the other: two types, each with its own bound
+    lvl1 += [["D", "int", "truthy", "shared"], ["D", rng.choice(["str", "object", rng.choice(names)]), "truthy", "shared"]]
     lvl1 += [["T", "int", "str"], ["T", rng.choice(names)], ["T", "int"], ["T"]]
     for a in rng.sample(plain, 3):
         lvl1 += [["G", "list", a], ["Ty", a]]
@@ -337,6 +339,21 @@ def check_case(spec, res):
             if r is not True:
                 res.violation("L2-dependent-type-rejects-its-own-bound", [type(b).__name__], spec,
                               observed={"type": n, "bound": str(b)[:80], "subclasscheck(bound, type)": str(r)},
+                              acceptable=True)
+    # ... and the bound it was *written* with (another type made from the same condition must not have changed it)
+    for t, n in zip(types, names):
+        if not isinstance(t, str) and t[0] == "D" and n in objs:
+            res.ev()
+            res.count("dependent_admits_declared_bound_L2")
+            try:
+                B = normalize_type(T.ann(t[1], env), None)
+                r = _sc(B, objs[n])
+            except Exception as e:  # noqa: BLE001
+                r = ("EXC", type(e).__name__)
+            if r is not True:
+                res.violation("L2-dependent-type-rejects-its-declared-bound", [T.tname(t[1])], spec,
+                              observed={"type": n, "declared_bound": T.tname(t[1]), "subclasscheck(bound, type)": str(r),
+                                        "bound_now": str(getattr(objs[n], "bound", None))[:60]},
                               acceptable=True)
     # L1
     for (i, a), (j, b) in itertools.combinations(enumerate(types), 2):
